@@ -70,6 +70,19 @@ type actionPlan struct {
 	CancelEmit int    `json:"cancel_emit,omitempty"` // progress updates still emitted after ctx.Done() was seen
 	Trace      string `json:"trace,omitempty"`       // w3c trace context: "", "valid", "junk"
 	Suffix     string `json:"suffix,omitempty"`      // instance name suffix
+	// DF: digest_function of the execute request. "" = SHA256; "UNKNOWN",
+	// "VSO", "MURMUR3", "1000", "-1" are values BuildClient.startExecution
+	// cannot resolve (InstanceName.GetDigestFunction with hash length 0).
+	DF string `json:"df,omitempty"`
+	// BadDigest: a malformed action_digest ("short_hash", "nonhex",
+	// "neg_size", "empty_hash"). BuildClient does not look at it: the request
+	// is a valid one, Execute is started and the reports echo the digest.
+	BadDigest string `json:"bad_digest,omitempty"`
+	// Reject: the generator's classification. Non-empty ("df", "suffix",
+	// "df+suffix") = the request fails the worker's validation in
+	// startExecution (digest function it cannot resolve, instance name
+	// suffix with a reserved keyword component or redundant slashes).
+	Reject string `json:"reject,omitempty"`
 	// Loop test only (the executor is autonomous there, on bubble time).
 	RunMs         int `json:"run_ms,omitempty"`
 	Updates       int `json:"updates,omitempty"`
@@ -108,6 +121,7 @@ type actionRec struct {
 	digest   *remoteexecution.Digest
 	response *remoteexecution.ExecuteResponse // the one object Execute returns
 	valid    bool                             // delivered in a reply the worker must act upon
+	whyNot   string                           // !valid: why the worker must not start it
 
 	started  bool
 	returned bool
@@ -213,7 +227,15 @@ type world struct {
 	cur            *actionRec // action the worker was last validly told to run; nil after a valid "idle"
 	mayBelieveExec bool       // the scheduler may believe the worker is executing
 	refSync        time.Time  // last next_synchronization_at the worker validly received
-	shutdown       bool       // the outer context has been cancelled
+	// Earliest next_synchronization_at carried by an execute request that
+	// failed the worker's validation, since the last reply the worker acted
+	// upon (nil = none). Such a reply is well-formed, so its timestamp is "a
+	// synchronization time provided by the scheduler" as much as refSync is;
+	// BuildClient adopts it for its timer but keeps the one-minute bound it
+	// derived from the previous one. The may-terminate oracle accepts either
+	// reading: the bound is the earlier of the two (see mayTerminateAllowed).
+	refSyncRejected *time.Time
+	shutdown        bool // the outer context has been cancelled
 
 	// Freshness / completion oracle: what the next request must at least
 	// report (nil = nothing demanded). Consumed by checkRequest.
@@ -384,7 +406,7 @@ func (w *world) Execute(ctx context.Context, filePool pool.FilePool, monitor acc
 	// cancelled by then). What must hold: only validly delivered actions are
 	// started, in the order in which they were handed out.
 	if !a.valid {
-		w.violate("Execute started for action#%d, which was delivered in a reply the worker had to discard (invalid timestamp); last valid instruction: %s", a.idx, describeCur(w.cur))
+		w.violate("Execute started for action#%d, which was delivered in a reply the worker had to discard (%s); last valid instruction: %s", a.idx, a.whyNot, describeCur(w.cur))
 	}
 	if p := w.lastStarted; p != nil && p.idx >= a.idx {
 		w.violate("Execute started for action#%d after the later action#%d had already been started", a.idx, p.idx)
@@ -675,11 +697,49 @@ func (w *world) defaultReply(reported int, pbi bool) *replyPlan {
 	}
 }
 
+// digestFunctionOf maps actionPlan.DF to the enum value put on the wire.
+func digestFunctionOf(df string) remoteexecution.DigestFunction_Value {
+	switch df {
+	case "":
+		return remoteexecution.DigestFunction_SHA256
+	case "UNKNOWN":
+		return remoteexecution.DigestFunction_UNKNOWN
+	case "VSO":
+		return remoteexecution.DigestFunction_VSO
+	case "MURMUR3":
+		return remoteexecution.DigestFunction_MURMUR3
+	case "1000":
+		return remoteexecution.DigestFunction_Value(1000)
+	case "-1":
+		return remoteexecution.DigestFunction_Value(-1)
+	}
+	panic("unknown digest function plan " + df)
+}
+
+// malformedDigest returns a fresh action digest no digest function accepts.
+func malformedDigest(kind string, good *remoteexecution.Digest) *remoteexecution.Digest {
+	switch kind {
+	case "short_hash":
+		return &remoteexecution.Digest{Hash: good.Hash[:10], SizeBytes: good.SizeBytes}
+	case "nonhex":
+		return &remoteexecution.Digest{Hash: "zz" + good.Hash[2:], SizeBytes: good.SizeBytes}
+	case "neg_size":
+		return &remoteexecution.Digest{Hash: good.Hash, SizeBytes: -1}
+	case "empty_hash":
+		return &remoteexecution.Digest{SizeBytes: good.SizeBytes}
+	}
+	panic("unknown malformed digest plan " + kind)
+}
+
 func (w *world) newAction(p *actionPlan, now time.Time) *actionRec {
+	actionDigest := digestPool[p.Digest]
+	if p.BadDigest != "" {
+		actionDigest = malformedDigest(p.BadDigest, actionDigest)
+	}
 	a := &actionRec{
 		idx:          len(w.actions),
 		plan:         *p,
-		digest:       digestPool[p.Digest],
+		digest:       actionDigest,
 		cmds:         make(chan execCmd),
 		release:      make(chan struct{}),
 		lastReported: -1,
@@ -697,7 +757,7 @@ func (w *world) newAction(p *actionPlan, now time.Time) *actionRec {
 		Action:             &remoteexecution.Action{CommandDigest: digestPool[(p.Digest+1)%3]},
 		QueuedTimestamp:    timestamppb.New(now.Add(-3 * time.Second)),
 		InstanceNameSuffix: p.Suffix,
-		DigestFunction:     remoteexecution.DigestFunction_SHA256,
+		DigestFunction:     digestFunctionOf(p.DF),
 	}
 	switch p.Trace {
 	case "valid":
@@ -855,17 +915,50 @@ func (w *world) Synchronize(ctx context.Context, req *remoteworker.SynchronizeRe
 	switch kind {
 	case "exec":
 		a := w.newAction(plan.Act, now)
-		a.valid = valid
+		rejected := plan.Act.Reject != ""
+		a.valid = valid && !rejected
+		switch {
+		case !valid:
+			a.whyNot = "invalid timestamp"
+		case rejected:
+			a.whyNot = fmt.Sprintf("execute request that fails the worker's validation: digest_function=%d instance_name_suffix=%q", int32(a.desired.DigestFunction), a.desired.InstanceNameSuffix)
+		}
 		resp.DesiredState = &remoteworker.DesiredState{WorkerState: &remoteworker.DesiredState_Executing_{Executing: a.desired}}
 		// Whether or not the worker can use this reply, the scheduler now
 		// believes the worker runs the action.
 		w.mayBelieveExec = true
-		if valid {
+		if plan.Act.BadDigest != "" {
+			w.label("exec_malformed_action_digest")
+		}
+		if valid && rejected {
+			// The reply is well-formed, but startExecution must refuse the
+			// request before touching anything: the instruction the worker was
+			// last validly given (w.cur: an action that keeps running and being
+			// reported, or idle) stays in force, and so does refSync. From the
+			// scheduler's point of view the action has been handed out.
+			w.lastReplyKind = "exec_rejected"
+			ts := resp.NextSynchronizationAt.AsTime()
+			if w.refSyncRejected == nil || ts.Before(*w.refSyncRejected) {
+				w.refSyncRejected = &ts
+			}
+			w.label("reply_exec_rejected")
+			w.label("reply_exec_rejected_" + plan.Act.Reject)
+			if w.active > 0 {
+				w.label("exec_rejected_while_executing")
+			}
+			if w.shutdown {
+				w.label("exec_rejected_after_shutdown")
+				if w.active > 0 {
+					w.label("exec_rejected_after_shutdown_while_executing")
+				}
+			}
+		} else if valid {
 			if w.active > 0 {
 				w.label("preempt")
 			}
 			w.cur = a
 			w.refSync = resp.NextSynchronizationAt.AsTime()
+			w.refSyncRejected = nil
 			w.nilToCompletedTaint = false
 			w.label("reply_exec")
 		}
@@ -878,6 +971,7 @@ func (w *world) Synchronize(ctx context.Context, req *remoteworker.SynchronizeRe
 			}
 			w.cur = nil
 			w.refSync = resp.NextSynchronizationAt.AsTime()
+			w.refSyncRejected = nil
 			w.nilToCompletedTaint = false
 			w.label("reply_idle")
 		}
@@ -886,6 +980,7 @@ func (w *world) Synchronize(ctx context.Context, req *remoteworker.SynchronizeRe
 		w.mayBelieveExec = reported == repExecuting
 		if valid {
 			w.refSync = resp.NextSynchronizationAt.AsTime()
+			w.refSyncRejected = nil
 			w.label("reply_no_desired_state")
 			if reported == repCompleted {
 				w.label("reply_no_desired_state_to_completed")
@@ -939,11 +1034,21 @@ func (w *world) mayTerminateAllowed(now time.Time) (bool, string) {
 		// synchronisation time it lowered itself. Not judged.
 		return true, "unjudged_after_no_desired_state_to_completed"
 	}
-	if now.After(w.refSync.Add(time.Minute)) {
+	ref := w.refSync
+	if r := w.refSyncRejected; r != nil && r.Before(ref) {
+		// Execute requests that failed the worker's validation were delivered
+		// since: the earlier of the synchronization times counts (the worker
+		// may treat such a reply as discarded, or as providing a new time).
+		ref = *r
+		if now.After(ref.Add(time.Minute)) {
+			return true, "next_sync_of_rejected_execute_missed_by_more_than_a_minute"
+		}
+	}
+	if now.After(ref.Add(time.Minute)) {
 		return true, "next_sync_missed_by_more_than_a_minute"
 	}
 	return false, fmt.Sprintf("the scheduler may believe the worker is executing (last reply kind %q valid=%v) and now=%s is not more than a minute past the last provided synchronization time %s",
-		w.lastReplyKind, w.lastReplyValid, now.UTC().Format(time.RFC3339Nano), w.refSync.UTC().Format(time.RFC3339Nano))
+		w.lastReplyKind, w.lastReplyValid, now.UTC().Format(time.RFC3339Nano), ref.UTC().Format(time.RFC3339Nano))
 }
 
 // ---------------------------------------------------------------------
